@@ -31,7 +31,7 @@ EXCS = [
     ("AssertionError", "AssertionError('line one\\nline two')", "line two"),
     ("OSError", "OSError('No such thing')", "No such thing"),
 ]
-KINDS = ["body", "callback_local", "callback_remote", "body_peer_dropped"]
+KINDS = ["body", "callback_local", "callback_remote", "body_peer_dropped", "endmarker_callback_raises"]
 
 
 class MyRemoteFailure(Exception):
@@ -138,7 +138,28 @@ def run_program(res: Result, lab, prog, label, hid):
     sibs = start_siblings(lab, prog["siblings"], stop)
     gw = lab.gw
     try:
-        if kind == "body_peer_dropped":
+        if kind == "endmarker_callback_raises":
+            # the callback fails on the endmarker itself (the peer closes normally): nothing else may be disturbed
+            lc, rc = lab.pair_newchannel_local() if hid % 2 else lab.pair_newchannel_remote()
+            X, Y = (lc, rc) if hid % 4 < 2 else (rc, lc)
+            del lc, rc
+            got = []
+
+            def cb(item):
+                got.append(item)
+                if item == "<end>":
+                    raise ValueError("callback fails on its endmarker")
+
+            X.setcallback(cb, endmarker="<end>")
+            for i in range(p):
+                Y.send((hid, i))
+            Y.close()
+            from vlib import pairs
+
+            pairs.wait_until(lambda: "<end>" in got, 6.0)
+            if got != [(hid, i) for i in range(p)] + ["<end>"]:
+                res.violation(m("callback-transcript-wrong"), f"{label}: {short(got)}")
+        elif kind == "body_peer_dropped":
             # the gw.remote_exec(src).setcallback(cb, endmarker) idiom: nobody holds the channel when the body fails.
             # The failure cannot be raised anywhere; it must still be reported (RemoteError.warn) and the callback
             # gets its items and the endmarker.
